@@ -187,7 +187,9 @@ InvFails(G, S, ln) ==
   (IF h \in S.ev[e].ran /\ ~S.ev[e].multi THEN {<<"C01", "twice">>} ELSE {})
   \cup
   (IF h \notin S.ev[e].expect /\ h \notin S.ev[e].slack /\ ~S.ev[e].multi
-   THEN (IF Root(S, G.H[h].comp) # S.ev[e].disproot THEN {<<"C07", "after_detach">>} ELSE {<<"C01", "extra">>})
+   THEN (IF Root(S, G.H[h].comp) # S.ev[e].disproot
+         THEN {<<"C07", "after_detach">>, <<"C01", "extra">>}     \* not in the dispatching tree (any more): both properties say so
+         ELSE {<<"C01", "extra">>})
    ELSE {})
   \cup
   (IF S.ev[e].lastPrio # NoPrio /\ G.H[h].prio > S.ev[e].lastPrio THEN {<<"C02", "hprio">>} ELSE {})
